@@ -449,16 +449,20 @@ def nonEnvelope (text : Str) : Parsed :=
     let d := t.take Gen.C21.clientMaxDetail
     .authErr r (if d.isEmpty then Gen.C21.clientEmptyDetail.toList else d) []
 
-/-- `_parse_unauthorized` -/
-def parseUnauthorized (E : ClientEnv) (content : List UInt8) : Parsed :=
+/-- `_parse_unauthorized`, parametric in the classes named by `contextlib.suppress(...)` around `json.loads` -/
+def parseWith (suppresses : List String) (E : ClientEnv) (content : List UInt8) : Parsed :=
   match E.loads content with
   | .raised e =>
-    if Gen.C21.clientSuppresses.any e.isInstance then nonEnvelope (E.decode content) else .escaped e
+    if suppresses.any e.isInstance then nonEnvelope (E.decode content) else .escaped e
   | .nonDict => nonEnvelope (E.decode content)
   | .dict r d h =>
     let reason := match Reason.ofValue? r.text with
       | some x => x
       | none => Reason.ofName Gen.C21.clientUnknownReason
     .authErr reason d.text h.text
+
+/-- `_parse_unauthorized` as the source has it -/
+def parseUnauthorized (E : ClientEnv) (content : List UInt8) : Parsed :=
+  parseWith Gen.C21.clientSuppresses E content
 
 end VgiVerif.C21
